@@ -38,6 +38,10 @@ CLAIMED = {
   "fresh-object (copy-on-write) store analysis over SSA value origins; created-node/dirty-flag pairing; guard-edge checks on cached-hash returns and on the minimal-form type tests; constant obligations on the embed threshold and force arguments",
   "Structural necessary conditions of a history-independent MPT root decided for all 60 stores into node fields of storage/trie, every node created or copied in insert/delete, the three cached-hash returns, the embed threshold and all force arguments, the two wrap sites of delete, and the branch value slot. Equality of the root with the Yellow-Paper value, hex-prefix encoding and iteration order are value-level and not decided.",
   "Trusted: go/ssa; node types are unexported so only package trie touches them; hashChildren returns fresh copies (reviewed)."),
+ "C03": ("3/C03",
+  "reachability/dominance on the CFG of NodeDatabase.commit/Commit and AccountDB.Commit; who-may-call for the GC entry points; struct-field coverage of the leaf callback; result-discipline (project-specific errcheck) on the commit cone",
+  "Write-ordering and ownership facts decided structurally: commit is a post-order recursion (children, error-checked, before the node's Put; flush after Put); uncache only after the final successful batch write; no production caller of Dereference/Cap and no Delete in the state packages; the leaf callback references every hash-valued Account field unconditionally of the others; storage trie committed before the account record; state then node database committed before success/head update; commit/batch errors consumed on the insertBlock cone. Physical crash behaviour and LevelDB's own guarantees are not decided. A non-recursive rewrite of commit is reported as undecidable (fails closed).",
+  "Trusted: LevelDB batch atomicity/durability; go/ssa; VTA call graph for the who-may-call rule."),
 }
 
 NOT_YET = {}
